@@ -1268,6 +1268,11 @@ impl RaftLogManager {
         let mut pop_count = 0;
         for item in &mut self.logs {
             if end_index < item.get_log_range_end_index() {
+                let is_remove = end_index < item.log_range.start_index;
+                if is_remove {
+                    pop_count += 1;
+                    continue;
+                }
                 let log_actor = if let Some(log_actor) = item.log_actor.as_ref() {
                     log_actor.clone()
                 } else {
@@ -1276,17 +1281,24 @@ impl RaftLogManager {
                     log_actor_addr
                 };
                 log_actor.do_send(RaftLogRequest::StripLogToIndex(end_index));
-                let is_remove = end_index < item.log_range.start_index;
-                if is_remove {
-                    pop_count += 1;
-                }
             }
             // a file that ends at or below the cut is left alone; the later ones still have to be cut
         }
         if pop_count > 0 {
             let log_count = self.logs.len() - pop_count;
-            self.logs = self.logs[..log_count].to_vec();
+            // the dropped files must not be found again, neither by the next start nor by a later rollover
+            for item in &self.logs[log_count..] {
+                if let Some(log_actor) = &item.log_actor {
+                    log_actor.do_send(RaftLogCmd::Close);
+                }
+                let path = Self::get_log_path(&self.base_path, &item.log_range);
+                std::fs::remove_file(path).ok();
+            }
+            self.logs.truncate(log_count);
             if let Some(last_log) = self.logs.last_mut() {
+                // the file that holds the cut is the open log again
+                last_log.log_range.is_close = false;
+                last_log.log_range.record_count = 0;
                 let log_actor = if let Some(log_actor) = &last_log.log_actor {
                     log_actor.clone()
                 } else {
@@ -1296,7 +1308,12 @@ impl RaftLogManager {
                     log_actor_addr
                 };
                 self.current_log_actor = Some(log_actor);
+            } else {
+                self.current_log_actor = None;
             }
+            let save_logs = self.logs.iter().map(|e| e.log_range.clone()).collect();
+            let index_request = RaftIndexRequest::SaveLogs(save_logs);
+            self.index_manager.as_ref().unwrap().do_send(index_request);
         }
         if let Some(tx) = tx {
             let _ = tx.send(Ok(WriteLogResult::Success));
